@@ -2740,6 +2740,11 @@ stun_server_resolved_cb (GObject *src, GAsyncResult *result,
   agent_lock (agent);
 
   stream = agent_find_stream (agent, stream_id);
+  if (stream == NULL) {
+    /* The stream was removed while the STUN server was being resolved */
+    agent_unlock_and_emit (agent);
+    goto done;
+  }
 
   for (item = addresses; item; item = item->next) {
     GInetAddress *addr = item->data;
